@@ -69,6 +69,7 @@ struct vs_record {
   volatile uint32_t inv_flags;     /* bit0 work_units, bit1 in_slots, bit2 out_slots */
   volatile uint64_t heap_peak;
   volatile uint64_t heap_live_end;
+  volatile uint64_t heap_limit_used;
   volatile uint32_t nthreads;
   volatile uint32_t nstate;        /* number of state hashes below */
   volatile uint32_t ev_count[16];  /* H2 task events: per task index begin counts */
